@@ -25,6 +25,9 @@ def baseline():
     return [[CFG, {"op": "Case", "i": 1}, {"op": "Settle"}, {"op": "Case", "i": 1}, {"op": "Settle"}, {"op": "Case", "i": 3}, {"op": "Settle"}, {"op": "Case", "i": 3}, {"op": "Settle"}, {"op": "Case", "i": 2}, {"op": "Settle"}],
             [dict(CFG, foreign2=True), {"op": "Case", "i": 2}, {"op": "Settle"}, {"op": "Case", "i": 1}, {"op": "Settle"}, {"op": "Case", "i": 2}, {"op": "Settle"}],
             [dict(CFG, wrong_ipk2=True), {"op": "Case", "i": 2}, {"op": "Settle"}, {"op": "Case", "i": 3}, {"op": "Settle"}],
+            # an initiator whose NOC has expired before the device's last known good time (a NotBefore in the future is not
+            # judged without a synchronised clock, see CertChain.tla)
+            [dict(CFG, validity2="expired"), {"op": "Case", "i": 2}, {"op": "Settle"}, {"op": "Case", "i": 1}, {"op": "Settle"}, {"op": "Case", "i": 2}, {"op": "Settle"}],
             [CFG, {"op": "Case", "i": 1, "peer": 0x2999}, {"op": "Settle"}, {"op": "Case", "i": 3, "peer": 0x2000}, {"op": "Settle"}, {"op": "Case", "i": 1, "peer": 0x2007}, {"op": "Settle"}, {"op": "Case", "i": 1}, {"op": "Settle"}]]
 
 def run(tier, seed):
